@@ -362,7 +362,8 @@ class World:
             if ip in ("<broadcast>", "255.255.255.255"):
                 targets = list(self.peers)
             else:
-                targets = [p for p in self.peers if p.addr[0] == ip and p.addr[1] == addr[1]]
+                # (a peer may also be reachable under other names: a host name the resolver maps to it, a forwarded address)
+                targets = [p for p in self.peers if (p.addr[0] == ip or ip in getattr(p, "aliases", ())) and p.addr[1] == addr[1]]
         act = self._action("c2s", data)
         self.wire.append((now, "c2s", transport.local_addr, addr, data, act if targets else "no-peer"))
         if not targets or act == "drop":
